@@ -50,11 +50,13 @@ def execute(scn, choices=None):
     rt.exploring = bool(scn.explore_from_start)
     shims.set_runtime(rt)
     patch.install()
+    patch.fresh_primitives()
     monitor.set_shared(scn.shared if scn.shared is not None else frozenset(), scn.extra_point_files)
     try:
         rt.run(lambda: scn.driver(rt), real_timeout=scn.real_timeout)
     finally:
         shims.set_runtime(None)
+        patch.restore_primitives()
     if rt.verdict == "replay-divergence":
         raise core.HarnessError(f"{scn.name}: replay diverged: {rt.replay_error}")
     if rt.verdict == "harness-timeout":
@@ -74,11 +76,13 @@ def discover(scn, rep=None):
     rt.scenario = scn
     shims.set_runtime(rt)
     patch.install()
+    patch.fresh_primitives()
     monitor.set_shared(None)
     try:
         rt.run(lambda: scn.driver(rt), real_timeout=scn.real_timeout)
     finally:
         shims.set_runtime(None)
+        patch.restore_primitives()
     scn.shared = saved
     return monitor.discovered_shared()
 
